@@ -140,7 +140,7 @@ class C20:
         for st in (True, False):
             cases.append({"kind": 5, "cfg": base_cfg(exe="build", nargs=3, store="ok", pre=st,
                                                      build={"error": False, "launch": "bad_wd", "store": st, "build_sboms": ["cdx"], "launch_sboms": []})})
-        for det in ("pass_plan", "pass", "pass_plan_multi", "pass_plan_multi", "pass_plan_meta", "pass_plan_meta"):
+        for det in ("pass_plan", "pass", "pass_plan_multi", "pass_plan_multi", "pass_plan_meta", "pass_plan_meta", "pass_plan_dup", "pass_plan_dup"):
             cases.append({"kind": 5, "cfg": base_cfg(exe="detect", nargs=2, det=det, pre=True)})
         return cases
 
